@@ -146,6 +146,8 @@ def main():
     budget = spec.get("budget_s", {}).get(tier, 900 if tier == "quick" else 7200)
     deadline = t0 + budget
     explore.WANT[0] = None if args.all_labels else {prop, "contract"}
+    if prop == "C16":
+        os.environ["SYMX_DECIDE_HAZARDS"] = "1"      # C16: every arithmetic hazard with a witness is replayed on the real code (inherited by the workers)
     aggs = explore.explore_many(jobs, nproc=args.nproc, deadline=deadline)
 
     known = load_known()
